@@ -51,6 +51,7 @@ func main() {
 	keep := flag.Bool("keep", false, "keep all query files")
 	dump := flag.String("dump", "", "print SSA of this function and exit")
 	tier2 := flag.Bool("tier2", false, "package is generated tier-2 code (attribution of safety/frame obligations)")
+	scan := flag.String("scan", "", "static scan: nondet | fieldreads (JSON on stdout)")
 	flag.Parse()
 
 	t0 := time.Now()
@@ -69,6 +70,21 @@ func main() {
 		for _, af := range fn.AnonFuncs {
 			af.WriteTo(os.Stdout)
 		}
+		return
+	}
+	if *scan != "" {
+		var v interface{}
+		switch *scan {
+		case "nondet":
+			v = eng.scanNondet()
+		case "fieldreads":
+			v = eng.scanFieldReads([]string{"gen_copy_from.go", "gen_copy_to.go", "gen_schema.go"}, []string{"Field", "Message", "TerraformType", "ProtobufType", "InjectedField"})
+		default:
+			fmt.Fprintln(os.Stderr, "unknown scan")
+			os.Exit(2)
+		}
+		enc, _ := json.MarshalIndent(v, "", " ")
+		fmt.Println(string(enc))
 		return
 	}
 	for _, c := range contracts {
